@@ -284,6 +284,10 @@ def run(ctx):  # noqa: C901, PLR0912, PLR0915
     from . import common
     common.version_group_setters_total(ctx, 'C01.R1')
     common.reconstruction_is_uncached(ctx, 'C01.R4')   # a consumer that initialises later gets the current description
+    from .c04 import parent_bump_is_reported
+    parent_bump_is_reported(ctx, 'C01.R1')   # the consumer is told the version the provider has
+    from .c06 import public_handlers_prechecked
+    public_handlers_prechecked(ctx, 'C01.R4')   # a buffered report is replayed by the handler of its own kind
     from .c04 import description_report_parts
     description_report_parts(ctx, 'C01.R1')   # what the consumer is told about descriptors is complete
     common.observers_all_notified(ctx, 'C01.R1')   # every commit reaches the report sender
